@@ -1,6 +1,8 @@
 import PW.Proofs.LayoutLemmas
 import PW.Proofs.LayoutWF
 import PW.Proofs.RoutingWF
+import PW.Proofs.MeasureWF
+import PW.Proofs.RoutingWF2
 /-!
 # C13 — the object graph's bookkeeping is always truthful
 
@@ -13,44 +15,16 @@ check compares it with the real `index` attributes, registries and back pointers
 namespace PW.Props.C13
 open PW.Layout
 
-theorem allMembers_cons (b : Block) (l : Layout) : allMembers (b :: l) = b.members ++ allMembers l := by
-  simp [allMembers]
+theorem allMembers_cons (b : Block) (l : Layout) : allMembers (b :: l) = b.members ++ allMembers l :=
+  PW.Layout.allMembers_cons b l
 
 theorem removeMeasured_sublist (l : Layout) (M : List Nat) :
-    (allMembers (removeMeasured l M)).Sublist (allMembers l) := by
-  induction l with
-  | nil => simp [removeMeasured, allMembers]
-  | cons b l ih =>
-    have hcons : removeMeasured (b :: l) M =
-        (if (b.members.filter (· ∉ M)).isEmpty then [] else [{ b with members := b.members.filter (· ∉ M) }])
-          ++ removeMeasured l M := by
-      unfold removeMeasured
-      simp only [List.map_cons, List.filter_cons]
-      by_cases hall : ∀ a, a ∈ b.members → a ∈ M
-      · have hne : ¬ ∃ x, x ∈ b.members ∧ ¬ x ∈ M := by rintro ⟨x, hx, hn⟩; exact hn (hall x hx)
-        simp [hall, hne]
-      · have hex : ∃ x, x ∈ b.members ∧ ¬ x ∈ M := by
-          by_contra hc
-          apply hall
-          intro a ha
-          by_contra hna
-          exact hc ⟨a, ha, hna⟩
-        simp [hall, hex]
-    rw [hcons, allMembers_cons]
-    split
-    · simp only [List.nil_append]
-      exact ih.trans (List.sublist_append_right _ _)
-    · simp only [List.cons_append, List.nil_append, allMembers_cons]
-      exact List.Sublist.append List.filter_sublist ih
+    (allMembers (removeMeasured l M)).Sublist (allMembers l) := PW.Layout.removeMeasured_sublist l M
 
 /-- **Invariant under measurement.** Exactly-one-place and no-empty-block survive the removal of
 measured subsystems. -/
-theorem WF_removeMeasured (l : Layout) (M : List Nat) (h : WF l) : WF (removeMeasured l M) := by
-  constructor
-  · exact h.1.sublist (removeMeasured_sublist l M)
-  · intro b hb
-    obtain ⟨_, _, _, _, hne⟩ := removeMeasured_members l M b hb
-    exact hne
+theorem WF_removeMeasured (l : Layout) (M : List Nat) (h : WF l) : WF (removeMeasured l M) :=
+  PW.Layout.WF_removeMeasured l M h
 
 /-- a live, unmeasured subsystem is still stored somewhere afterwards -/
 theorem unmeasured_still_stored (l : Layout) (M : List Nat) (x : Nat) (hx : x ∈ allMembers l) (hm : x ∉ M) :
@@ -122,6 +96,80 @@ theorem WF_history (l : Layout) (h : WF l) (hist : List Step) : WF (hist.foldl s
     | operation c T fronts => exact PW.Routing.WF_actOp l c T fronts h
     | resize f shrink => exact PW.Routing.WF_actResize l f shrink h
 
+/-! ### every routed public call -/
+
+/-- the routed public calls of the model `PW.Routing` (what the correspondence check mirrors after
+every step of every program) -/
+inductive Call where
+  | operation (c : Nat) (T fronts : List Nat)
+  | kraus (i : PW.Routing.Info) (c : Nat) (entry : PW.Routing.Entry) (T : List Nat)
+  | traceOut (i : PW.Routing.Info) (c : Nat) (entry : PW.Routing.Entry) (T : List Nat)
+  | povm (c : Nat) (T : List Nat)
+  | measure (M survivors : List Nat)
+  | resize (f : Nat) (shrink : Bool)
+  | envCombine (f p : Nat)
+  | envReorder (T : List Nat)
+  | ceCombine (c : Nat) (T : List Nat)
+  | ceReorder (c : Nat) (T : List Nat)
+  | merge (keep : Nat) (others : List Nat)
+
+/-- a request as the public API accepts it: operands listed once, the two members of an envelope are
+different subsystems, survivors of a measurement are among the measured and listed once -/
+def Call.valid : Call → Prop
+  | .kraus _ _ _ T => T.Nodup
+  | .traceOut _ _ _ T => T.Nodup
+  | .povm _ T => T.Nodup
+  | .measure M s => s.Nodup ∧ ∀ x ∈ s, x ∈ M
+  | .envCombine f p => f ≠ p
+  | .envReorder T => T.Nodup
+  | .ceReorder _ T => T.Nodup
+  | _ => True
+
+def call (l : Layout) : Call → Layout
+  | .operation c T fronts => PW.Routing.actOp l c T fronts
+  | .kraus i c e T => PW.Routing.actKraus i l c e T
+  | .traceOut i c e T => PW.Routing.actTraceOut i l c e T
+  | .povm c T => PW.Routing.cePovm l c T
+  | .measure M s => PW.Routing.actMeasure l M s
+  | .resize f shrink => PW.Routing.actResize l f shrink
+  | .envCombine f p => PW.Routing.envCombine l f p
+  | .envReorder T => PW.Routing.envOrder l T
+  | .ceCombine c T => combine l c T
+  | .ceReorder c T => reorder l c T
+  | .merge keep others => PW.Routing.mergeContainers l keep others
+
+theorem WF_call (l : Layout) (h : WF l) (s : Call) (hv : s.valid) : WF (call l s) := by
+  cases s with
+  | operation c T fronts => exact PW.Routing.WF_actOp l c T fronts h
+  | kraus i c e T => exact PW.Routing.WF_actKraus i l c e T hv h
+  | traceOut i c e T => exact PW.Routing.WF_actTraceOut i l c e T hv h
+  | povm c T => exact PW.Routing.WF_cePovm l c T hv h
+  | measure M sv => exact PW.Routing.WF_actMeasure l M sv hv.1 hv.2 h
+  | resize f shrink => exact PW.Routing.WF_actResize l f shrink h
+  | envCombine f p => exact PW.Routing.WF_envCombine l f p hv h
+  | envReorder T => exact PW.Routing.WF_envOrder l T hv h
+  | ceCombine c T => exact PW.Layout.WF_combine l c T h
+  | ceReorder c T => exact PW.Layout.WF_reorder l c T hv h
+  | merge keep others => exact PW.Routing.WF_mergeContainers l keep others h
+
+/-- **every live subsystem is stored in exactly one place, and no storage block is empty, after any
+history of routed public calls** (operations, channels, partial traces, POVMs, measurements with
+survivors, resizes, envelope / composite combine and reorder, merges of composite envelopes) -/
+theorem WF_every_history (l : Layout) (h : WF l) (hist : List Call) (hv : ∀ s ∈ hist, s.valid) :
+    WF (hist.foldl call l) := by
+  induction hist generalizing l with
+  | nil => exact h
+  | cons s hist ih =>
+    exact ih _ (WF_call l h s (hv s List.mem_cons_self)) (fun x hx => hv x (List.mem_cons_of_mem _ hx))
+
+/-- the initial partition of any set-up (every subsystem on its own) is well formed -/
+theorem WF_initial (n : Nat) : WF ((List.range n).map fun x => (⟨Kind.own, [x]⟩ : Block)) := by
+  constructor
+  · rw [PW.Routing.allMembers_own]; exact List.nodup_range
+  · intro b hb
+    obtain ⟨x, _, rfl⟩ := List.mem_map.mp hb
+    simp
+
 /-- the public index derived from the partition: (product-space position, tensor position) -/
 def indexOf (l : Layout) (c x : Nat) : Option (Nat × Nat) :=
   let spaces := l.filter (fun b => b.kind == .ps c)
@@ -167,3 +215,6 @@ end PW.Props.C13
 #print axioms PW.Props.C13.WF_trace_out
 #print axioms PW.Props.C13.WF_povm_routing
 #print axioms PW.Props.C13.WF_envelope_reorder
+#print axioms PW.Props.C13.WF_call
+#print axioms PW.Props.C13.WF_every_history
+#print axioms PW.Props.C13.WF_initial
